@@ -190,7 +190,8 @@ def monitor_one(trace_file, spec="TunnelMon"):
     r = tlc(os.path.join(SPEC, spec + ".tla"), os.path.join(SPEC, spec + ".cfg"),
             env={"VERIF_TRACE": trace_file, "VERIF_OUT": outf}, workers=1)
     if not os.path.exists(outf):
-        raise Infra("TLC did not finish validating %s:\n%s" % (trace_file, r.stdout[-4000:]))
+        tail = "\n".join(l for l in r.stdout.splitlines() if not l.startswith(("Parsing file", "Semantic processing", "Linting")))
+        raise Infra("TLC did not finish validating %s:\n%s" % (trace_file, tail[-1500:]))
     v = json.load(open(outf))
     nlines = sum(1 for _ in open(trace_file))
     if v.get("lines") != nlines:
